@@ -338,10 +338,18 @@ func init() {
 		vt := e.mat("vt", n, ncvt, ldvt)
 		u := e.mat("u", nru, n, ldu)
 		c := e.mat("c", n, ncc, ldc)
-		work := e.f64("work", 4*(n-1))
+		// Documented: len(work) >= 4*(n-1). For singular values only Dbdsqr hands
+		// work to Dlasq1, which wants 4*n (reference DBDSQR documents 4*n for that
+		// case): as long as the doc comment does not say so, those calls are valid
+		// by the documentation and reported under their own key.
+		valuesOnly := ncvt == 0 && nru == 0 && ncc == 0
+		needW := 4 * (n - 1)
+		if valuesOnly && docSays("Dbdsqr", "4*n") {
+			needW = 4 * n
+		}
+		work := e.f64("work", needW)
 		chk := n > 0
-		if ncvt == 0 && nru == 0 && ncc == 0 && len(work.s) < 4*n {
-			// singular values only: Dbdsqr hands work to Dlasq1, which wants 4*n
+		if valuesOnly && len(work.s) < 4*n {
 			e.tag = "/values-only-documented-work"
 		}
 		e.run(func() {
